@@ -830,10 +830,20 @@ def abs4b(ctx, pid):
                     if bit0 is None or args[0] != want or args[1] != ("slice", K, C(1), None):
                         problems.append((ev.node, "recursion into `%s` with `%s` when the first bit is %s; bit 0 selects the left child, residual keypath[1:]"
                                          % (tstr(args[0]), tstr(args[1])[:30], "unknown" if bit0 is None else ("0" if bit0 else "1"))))
-        fb = st.env.get("first_bit")
+        # locals identified by role, not by name: the collapse bit is the local whose value is one of the
+        # two bit constants; the new children are the arguments of encode_branch_node(left, right)
+        fbs = [v for k_, v in st.env.items() if k_ not in g.params and v in (B0, B1)]
+        fb = fbs[0] if fbs else None
+        if fb is None:
+            ites = [v for k_, v in st.env.items() if k_ not in g.params and isinstance(v, tuple) and v and v[0] == "ite"]
+            fb = ites[0] if ites else None
+        nln = nrn = None
+        for c_ in walk_shallow(g.node):
+            if isinstance(c_, ast.Call) and ast.unparse(c_.func) == "encode_branch_node" and len(c_.args) == 2 and all(isinstance(a, ast.Name) for a in c_.args):
+                nln, nrn = c_.args[0].id, c_.args[1].id
         if fb is not None and fb in (B0, B1):
             n += 1
-            nr, nl = st.env.get("new_right_child"), st.env.get("new_left_child")
+            nr, nl = st.env.get(nrn), st.env.get(nln)
             blank = K_["BLANK_HASH"]
             right_alive = None
             if nr is not None and st.facts.eq.get(nr) == blank or nr == BLANK:
